@@ -84,7 +84,7 @@ pub fn run(args: &Args, mode: &str) -> i32 {
         f2_open,
         f13_open,
     };
-    let st = run_h(&mut rep, &mut pool, &cfg, depth, Duration::from_secs(args.tier.pick(30, 12 * 60)), args.tier.pick(400_000, 20_000_000), true);
+    let st = run_h(&mut rep, &mut pool, &cfg, depth, Duration::from_secs(args.tier.pick(30, 10 * 60)), args.tier.pick(400_000, 20_000_000), true);
     let mut extra = vec![];
     let mut tot_states = st.states;
     let mut tot_tr = st.transitions;
